@@ -506,6 +506,23 @@ class Cross(Driver):
         ax = case["axes"]
         a, b = ax["a"], ax["b"]
         text = case["data"]["text"]
+        # history variant: the SAME parseable_str instance is first offered to A and then to B (what command-line tools do when
+        # they guess the network): B's answer must be what it gives for a fresh str
+        try:
+            ps = net(a).parseable_str_type(text)
+            with contextlib.redirect_stdout(io.StringIO()):
+                ra = net(a).parse.address(ps)
+                rb = net(b).parse.address(ps)
+                rf = net(b).parse.address(str(text))
+            kb = None if rb is None else bytes(rb.script())
+            kf = None if rf is None else bytes(rf.script())
+        except Exception as e:
+            return BAD("shared-str-raises", "parse.address on a shared parseable_str returns", "EXC %s: %s" % (type(e).__name__, e),
+                       clause="shared-parseable-str")
+        if kb != kf:
+            return BAD("shared-str-differs", "%s.parse.address(fresh str) -> %s" % (b, kf.hex() if kf else None),
+                       "after %s.parse.address on the same parseable_str -> %s" % (a, kb.hex() if kb else None), clause="shared-parseable-str",
+                       g_pair="%s->%s" % (a, b))
         out = check_acceptance(b, text, net(b))
         if out is not None:
             if out.ok and out.cls.startswith("accepted"):
@@ -575,6 +592,11 @@ def templates():
                           d("OP_3", b"\x53"), op("OP_CHECKMULTISIG")],
         "multisig-16of16": [op("OP_16")] + [d("push33", R.push(k[i % 2])) for i in range(16)] + [op("OP_16"), op("OP_CHECKMULTISIG")],
         "nulldata": [op("OP_RETURN"), d("push20", R.push(h20))],
+        # key counts beyond OP_16: the count opcode byte just after OP_16 (0x61 = OP_NOP) and the explicit number push
+        "multisig-1of17-byte61": [op("OP_1")] + [d("push33", R.push(k[i % 2])) for i in range(17)] + [d("byte61", b"\x61"), op("OP_CHECKMULTISIG")],
+        "multisig-1of17-push11": [op("OP_1")] + [d("push33", R.push(k[i % 2])) for i in range(17)] + [d("push-0x11", b"\x01\x11"), op("OP_CHECKMULTISIG")],
+        "multisig-17of17-byte61": [d("byte61", b"\x61")] + [d("push33", R.push(k[i % 2])) for i in range(17)] + [d("byte61", b"\x61"), op("OP_CHECKMULTISIG")],
+        "multisig-1of20-byte64": [op("OP_1")] + [d("push33", R.push(k[i % 2])) for i in range(20)] + [d("byte64", b"\x64"), op("OP_CHECKMULTISIG")],
     }
 
 
